@@ -1,40 +1,85 @@
 #!/usr/bin/env python3
-"""Write seeded/<id>/meta.json from the validation transcripts."""
-import json, os, re, glob
-ROOT='/verif/seeded'
-props={json.loads(l)['id']:json.loads(l) for l in open('/verif/properties.jsonl')}
+"""Write seeded/<id>/meta.json from the validation / recheck transcripts and print the catch matrix.
+
+validation.first.txt  transcript of tools/validate_seed.sh when the change arrived and was MISSED
+validation.txt        transcript of tools/validate_seed.sh (arrival, or re-run after strengthening)
+recheck.txt           transcript of tools/recheck_seed.sh: the current monitors against the stored patch
+"""
+import glob
+import json
+import os
+import re
+
+ROOT = '/verif/seeded'
+props = {json.loads(l)['id']: json.loads(l) for l in open('/verif/properties.jsonl')}
+
+
 def parse(path):
-    if not os.path.exists(path): return None
-    t=open(path).read()
-    d={}
-    m=re.search(r'demo on unchanged tree: exit (\d+)',t); d['demo_unchanged_exit']=int(m.group(1)) if m else None
-    m=re.search(r'demo with the change:\s+exit (\d+)',t); d['demo_changed_exit']=int(m.group(1)) if m else None
-    m=re.search(r'repository suite with the change: (.*)',t); d['repository_suite']=m.group(1).strip() if m else None
-    m=re.search(r'unexpected failures: (.*)',t); d['unexpected_test_failures']=m.group(1).strip() if m else None
-    d['checks']={}
-    for m in re.finditer(r'--- ./check (C\d+) \(quick\): (\d+) VIOLATION lines',t):
-        d['checks'][m.group(1)]=int(m.group(2))
-    keys=re.findall(r'key=(\S+)',t)
-    d['example_keys']=keys[:4]
+    if not os.path.exists(path):
+        return None
+    t = open(path).read()
+    d = {}
+    m = re.search(r'demo on unchanged tree: exit (\d+)', t)
+    d['demo_unchanged_exit'] = int(m.group(1)) if m else None
+    m = re.search(r'demo with the change:\s+exit (\d+)', t)
+    d['demo_changed_exit'] = int(m.group(1)) if m else None
+    m = re.search(r'repository suite with the change: (.*)', t)
+    d['repository_suite'] = m.group(1).strip() if m else None
+    m = re.search(r'unexpected failures: (.*)', t)
+    d['unexpected_test_failures'] = m.group(1).strip() if m else None
+    m = re.search(r'repo HEAD: (\S+)\s+verif HEAD: (\S+)', t)
+    d['heads'] = {'repo': m.group(1), 'verif': m.group(2)} if m else None
+    d['checks'] = {}
+    for m in re.finditer(r'--- ./check (C\d+) \(quick\): (\d+) VIOLATION lines', t):
+        d['checks'][m.group(1)] = int(m.group(2))
+    d['keys'] = re.findall(r'key=(\S+)', t)[:4]
     return d
-for sd in sorted(glob.glob(ROOT+'/C*-*')):
-    sid=os.path.basename(sd); pid=sid.split('-')[0]
-    final=parse(sd+'/validation.txt'); first=parse(sd+'/validation.first.txt')
-    if final is None: continue
-    readme=open(sd+'/README.seeder.md').read() if os.path.exists(sd+'/README.seeder.md') else ''
-    caught_by=[p for p,n in final['checks'].items() if n>0]
-    meta={
-      'id':sid,'breaks_property':pid,'title':props[pid]['title'],
-      'origin':'written by a fresh sub-agent that was given only the text of the property and a scratch worktree of /repo (nothing from /verif)',
-      'files':{'patch':'patch.diff','demonstration':'demo.py','seeder_notes':'README.seeder.md','validation':'validation.txt'},
-      'needs_to_manifest':readme.strip()[:1500],
-      'confirmed':{'demo_exit_unchanged_tree':final['demo_unchanged_exit'],'demo_exit_with_change':final['demo_changed_exit'],
-                   'repository_suite_with_change':final['repository_suite'],'unexpected_test_failures':final['unexpected_test_failures'],
-                   'how':'tools/validate_seed.sh: demo on the clean worktree, git apply, demo again, whole pytest suite with the change (-n 8), then ./check <ID> with VERIF_REPO=<worktree>, git checkout'},
-      'detection':{'quick_checks_run':final['checks'],'caught_by':caught_by,'caught':bool(caught_by),'example_violation_keys':final['example_keys']},
+
+
+rows = []
+for sd in sorted(glob.glob(ROOT + '/C*-*')):
+    sid = os.path.basename(sd)
+    pid = sid.split('-')[0]
+    val = parse(sd + '/validation.txt')
+    first = parse(sd + '/validation.first.txt')
+    re_ = parse(sd + '/recheck.txt')
+    base = val or first
+    if base is None:
+        continue
+    arrival = first or val
+    now = dict((val or first)['checks'])
+    if first and val:
+        now.update(val['checks'])
+    if re_:
+        now.update(re_['checks'])
+    keys = (re_ or {}).get('keys') or (val or {}).get('keys') or []
+    readme = open(sd + '/README.seeder.md').read() if os.path.exists(sd + '/README.seeder.md') else ''
+    caught_by = sorted(p for p, n in now.items() if n > 0)
+    arr_by = sorted(p for p, n in arrival['checks'].items() if n > 0)
+    meta = {
+        'id': sid, 'breaks_property': pid, 'title': props[pid]['title'],
+        'round': 2 if '-r2-' in sid else (3 if '-r3-' in sid else 1),
+        'origin': 'written by a fresh sub-agent that was given only the text of the property and a scratch worktree of /repo (nothing from /verif)',
+        'files': {'patch': 'patch.diff', 'demonstration': 'demo.py', 'seeder_notes': 'README.seeder.md',
+                  'validation': [f for f in ('validation.first.txt', 'validation.txt', 'recheck.txt') if os.path.exists(sd + '/' + f)]},
+        'needs_to_manifest': readme.strip()[:1500],
+        'confirmed': {
+            'demo_exit_unchanged_tree': base['demo_unchanged_exit'], 'demo_exit_with_change': base['demo_changed_exit'],
+            'repository_suite_with_change': base['repository_suite'], 'unexpected_test_failures': base['unexpected_test_failures'],
+            'how': 'tools/validate_seed.sh: demo on the clean worktree, git apply, demo again, whole pytest suite with the change (-n 8), '
+                   'then ./check <ID> with VERIF_REPO=<worktree>, git checkout; tools/recheck_seed.sh re-runs the current checks against the stored patch'},
+        'detection': {
+            'on_arrival': {'quick_checks_run': arrival['checks'], 'caught_by_own_check': arrival['checks'].get(pid, 0) > 0, 'caught_by': arr_by},
+            'now': {'quick_checks_run': now, 'caught_by_own_check': now.get(pid, 0) > 0, 'caught_by': caught_by,
+                    'example_violation_keys': keys, 'heads': (re_ or {}).get('heads')},
+        },
     }
-    if first is not None:
-        meta['detection']['first_attempt']={'quick_checks_run':first['checks'],'caught':any(n>0 for n in first['checks'].values())}
-        meta['detection']['note']='missed by the checks as they were when the change arrived; the monitor was strengthened (see DESIGN.md section 8) and the change re-run'
-    json.dump(meta,open(sd+'/meta.json','w'),indent=1)
-    print(sid, 'caught' if caught_by else 'MISSED', caught_by, '(first: %s)'%('caught' if first and any(n>0 for n in first['checks'].values()) else ('missed' if first else '-')))
+    if os.path.exists(sd + '/NOTE.md'):
+        meta['note'] = open(sd + '/NOTE.md').read().strip()
+    json.dump(meta, open(sd + '/meta.json', 'w'), indent=1)
+    rows.append((sid, 'caught' if arrival['checks'].get(pid, 0) > 0 else ('other:' + ','.join(arr_by) if arr_by else 'missed'),
+                 ','.join(caught_by) or 'MISSED'))
+for r in rows:
+    print('%-10s first=%-14s now=%s' % r)
+print(len(rows), 'seeds;', sum(1 for r in rows if r[1] == 'caught'), 'caught by their own check on arrival;',
+      sum(1 for r in rows if r[2] != 'MISSED'), 'caught now')
